@@ -102,7 +102,8 @@ pub fn check_attrs(c: &AttrCase, cx: &mut Ctx) -> R {
         abbrevs: vec![Abbrev { code: 1, tag: 0x11, children: false, attrs: c.specs.clone() }],
         abbrev_group: 0,
         root: DieSpec { id: 0, abbrev: 0, vals: c.vals.clone(), children: vec![] },
-        trailing_nulls: 1,
+        // (in half of the units the entry's last attribute is also the last byte of the unit)
+        trailing_nulls: c.specs.len() % 2,
     };
     let built = build_info(std::slice::from_ref(&unit), false);
     let endian = cfg.endian();
@@ -214,6 +215,45 @@ pub fn check_attrs(c: &AttrCase, cx: &mut Ctx) -> R {
             }
             _ => {}
         }
+        // the narrow accessors are the wide one restricted to what fits; expressions and strings by form
+        {
+            let u = attr.udata_value();
+            ensure_eq!(attr.u8_value(), u.and_then(|v| u8::try_from(v).ok()), "c03/u8_value", "{}", got);
+            ensure_eq!(attr.u16_value(), u.and_then(|v| u16::try_from(v).ok()), "c03/u16_value", "{}", got);
+            if !matches!(var, "Data1" | "Data2" | "Data4" | "Data8" | "Udata" | "Sdata") {
+                ensure_eq!(u, None, "c03/udata_value/of-non-constant", "{}", got);
+                ensure_eq!(attr.sdata_value(), None, "c03/sdata_value/of-non-constant", "{}", got);
+            }
+            if var != "SecOffset" {
+                ensure_eq!(attr.offset_value(), None, "c03/offset_value/of-non-offset", "{}", got);
+            }
+            static STRS: [u8; 12] = *b"zero\0one\0two";
+            static SUP_STRS: [u8; 8] = *b"su\0per\0\0";
+            let (strs, sup_strs) = (&STRS, &SUP_STRS);
+            let ds = gimli::DebugStr::new(&strs[..], endian);
+            let dsup = gimli::DebugStr::new(&sup_strs[..], endian);
+            let cstr_at = |t: &[u8], o: usize| -> Option<Vec<u8>> { t.get(o..).and_then(|r| r.iter().position(|b| *b == 0).map(|z| r[..z].to_vec())) };
+            match attr.raw_value() {
+                gimli::AttributeValue::Block(r) | gimli::AttributeValue::Exprloc(gimli::Expression(r)) => {
+                    let e = attr.exprloc_value();
+                    ensure!(e.as_ref().is_some_and(|e| e.0.slice() == r.slice() && e.0.slice().as_ptr() == r.slice().as_ptr()), "c03/exprloc_value", "{}", got);
+                }
+                _ => ensure!(attr.exprloc_value().is_none(), "c03/exprloc_value/of-non-block", "{}", got),
+            }
+            let want_plain: Option<Vec<u8>> = match attr.raw_value() {
+                gimli::AttributeValue::String(r) => Some(r.slice().to_vec()),
+                gimli::AttributeValue::DebugStrRef(o) => cstr_at(&strs[..], o.0),
+                _ => None,
+            };
+            let want_sup: Option<Vec<u8>> = match attr.raw_value() {
+                gimli::AttributeValue::DebugStrRefSup(o) => cstr_at(&sup_strs[..], o.0),
+                _ => want_plain.clone(),
+            };
+            ensure_eq!(attr.string_value(&ds).map(|r| r.slice().to_vec()), want_plain, "c03/string_value", "{}", got);
+            ensure_eq!(attr.string_value_sup(&ds, Some(&dsup)).map(|r| r.slice().to_vec()), want_sup, "c03/string_value_sup", "{}", got);
+            let no_sup = if matches!(attr.raw_value(), gimli::AttributeValue::DebugStrRefSup(_)) { None } else { want_plain.clone() };
+            ensure_eq!(attr.string_value_sup(&ds, None).map(|r| r.slice().to_vec()), no_sup, "c03/string_value_sup/no-sup", "{}", got);
+        }
         decoded.push((got, val));
     }
     // (b) skipping equals reading, for every prefix split
@@ -255,8 +295,12 @@ pub fn check_attrs(c: &AttrCase, cx: &mut Ctx) -> R {
             }
         }
         // the next entry is the trailing null
-        let ok = r3.read_entry(&mut entry).map_err(|e| Failure { sig: "c03/read_entry/trailing".into(), detail: format!("{e:?}") })?;
-        ensure!(!ok && entry.is_null(), "c03/read_entry/trailing-not-null", "");
+        if c.specs.len() % 2 == 1 {
+            let ok = r3.read_entry(&mut entry).map_err(|e| Failure { sig: "c03/read_entry/trailing".into(), detail: format!("{e:?}") })?;
+            ensure!(!ok && entry.is_null(), "c03/read_entry/trailing-not-null", "");
+        } else {
+            ensure!(r3.is_empty(), "c03/read_entry/input-left", "the entry was the last thing in the unit");
+        }
     }
     Ok(())
 }
